@@ -4,7 +4,7 @@ use syn::{
     Expr, Ident, Lit, LitBool, LitStr, Meta, MetaNameValue,
 };
 
-use super::path::path_to_string;
+use super::path::{path_to_string, ungroup};
 
 #[derive(Debug)]
 pub(crate) enum IdentOrBool {
@@ -35,7 +35,7 @@ impl Parse for IdentOrBool {
 
 #[inline]
 pub(crate) fn meta_name_value_2_ident(name_value: &MetaNameValue) -> syn::Result<Ident> {
-    match &name_value.value {
+    match ungroup(&name_value.value) {
         Expr::Lit(lit) => {
             if let Lit::Str(lit) = &lit.lit {
                 return lit.parse();
@@ -75,7 +75,7 @@ pub(crate) fn meta_2_ident(meta: &Meta) -> syn::Result<Ident> {
 
 #[inline]
 pub(crate) fn meta_name_value_2_bool(name_value: &MetaNameValue) -> syn::Result<bool> {
-    if let Expr::Lit(lit) = &name_value.value {
+    if let Expr::Lit(lit) = ungroup(&name_value.value) {
         if let Lit::Bool(b) = &lit.lit {
             return Ok(b.value);
         }
@@ -112,7 +112,7 @@ pub(crate) fn meta_2_bool_allow_path(meta: &Meta) -> syn::Result<bool> {
 pub(crate) fn meta_name_value_2_ident_and_bool(
     name_value: &MetaNameValue,
 ) -> syn::Result<IdentOrBool> {
-    match &name_value.value {
+    match ungroup(&name_value.value) {
         Expr::Lit(lit) => match &lit.lit {
             Lit::Str(lit) => match lit.parse::<Ident>() {
                 Ok(ident) => return Ok(IdentOrBool::Ident(ident)),
